@@ -107,6 +107,7 @@ static int h_main(int argc, char **argv) {
         {
             pid_t pid = nofork ? 0 : fork();
             if (pid == 0) {
+                if (!nofork) alarm(getenv("VERIF_CASE_TIMEOUT") ? atoi(getenv("VERIF_CASE_TIMEOUT")) : 30);
                 h_case_begin();
                 for (i = 0; i < nlines; i++) {
                     char *sp = strchr(lines[i], ' ');
